@@ -501,6 +501,10 @@ extern int total_queries;
             FAIL(errlabel, CIF_INTERNAL_ERROR); \
         case CIF_NUMB_KIND: \
             _value->as_numb.quoted = (sqlite3_column_int(_stmt, _col_ofs + 1) ? CIF_QUOTED : CIF_NOT_QUOTED); \
+            /* the value must be safe to clean if any of the following copies fails */ \
+            _value->as_numb.text = NULL; \
+            _value->as_numb.digits = NULL; \
+            _value->as_numb.su_digits = NULL; \
             GET_COLUMN_STRING(_stmt, _col_ofs + 3, _value->as_numb.text, HANDLER_LABEL(errlabel)); \
             GET_COLUMN_BYTESTRING(_stmt, _col_ofs + 4, _value->as_numb.digits, HANDLER_LABEL(errlabel)); \
             if ((_value->as_numb.text != NULL) && (*(_value->as_numb.text) != 0) && (_value->as_numb.digits != NULL) \
@@ -521,6 +525,7 @@ extern int total_queries;
                 if (_dresult == CIF_OK) break; \
                 FAIL(errlabel, _dresult); \
             } \
+            _value->kind = CIF_UNK_KIND;  /* no list or table content was set */ \
             FAIL(errlabel, CIF_INTERNAL_ERROR); \
         case CIF_UNK_KIND: \
         case CIF_NA_KIND: \
